@@ -7,7 +7,7 @@
    earlier versions of the code (kept for the refuted statements).  Single promise: Join is not
    in this model. *)
 From CV Require Import Promise.Promise Promise.PromiseProofs Promise.PromiseStepProofs Promise.MuProofs
-  Promise.PromiseTheorems Promise.PromiseLive Promise.PromiseProxies Promise.PromiseJoin Promise.PromiseJoinProofs.
+  Promise.PromiseTheorems Promise.PromiseLive Promise.PromiseProxies Promise.PromiseJoin Promise.PromiseJoinProofs Promise.PromiseJoinThms.
 Open Scope Z_scope.
 
 (* the promise resolves at most once; Fulfill/Reject after the first one panics (OPanic), the
@@ -160,3 +160,21 @@ Theorem C11_join_nil_table_refuted :
   end.
 Proof. exact join_nil_table_refuted. Qed.
 Print Assumptions C11_join_nil_table_refuted.
+
+(* exactly-once on a promise and its joined chain (model with Join), all variants, any number of promises,
+   every op list and interleaving: count part (at most once always, exactly once when returned).
+   PARTIAL for chains: the destination part and no_stuck are proved for the single-promise model only. *)
+Theorem C11_join_pipelined_exactly_once_partial : forall v np ops c, jreach v np ops c ->
+  forall t th, nth_error (jthreads c) t = Some th ->
+    match j_op th with
+    | JSend _ _ _ =>
+      (cnt (is_deliver t) (jevents c) <= 1)%nat /\
+      (j_pc th = QDone -> cnt (is_deliver t) (jevents c) = 1%nat)
+    | JCall _ _ =>
+      (cnt (is_deliver t) (jevents c) <= 1)%nat /\
+      (j_pc th = QDone -> (j_out th = ONoSlot /\ cnt (is_deliver t) (jevents c) = 0%nat) \/
+                          (j_out th = ORet /\ cnt (is_deliver t) (jevents c) = 1%nat))
+    | _ => True
+    end.
+Proof. exact join_pipelined_exactly_once. Qed.
+Print Assumptions C11_join_pipelined_exactly_once_partial.
